@@ -305,8 +305,26 @@ def cfg_C18(tier, rng):
                              family=lambda r, kk: gc.family_f3(r, kk, nmin=5, nmax=8, contracts=True)))]
 
 
+def cfg_C17c(tier, rng):
+    charts = [c for c in thin(mixed_family(tier, rng, small=40, big=20), rng, 8)
+              if not any(c['kind'][s - 1] == 'final' and c['parent'][s - 1] == gc.root(c) for s in range(1, c['n'] + 1))]
+    # guests with transitions that differ only in guard / action / priority (same source, target, event)
+    for c in charts[::3]:
+        if c['trans']:
+            t = dict(rng.choice(c['trans']))
+            t['gk'], t['prio'] = 'oracle', t['prio'] + 1
+            c['trans'].append(t)
+    return dict(name='copy', charts=no_active(charts),
+                consts=dict(MaxQ=1, MaxLevel=5 if tier == QUICK else 6),
+                variants=[dict(variant='api', seed=8, twin=dict(rel='copy', kw=dict(copy_into=True)))],
+                random=dict(count=100 if tier == QUICK else 1000, length=14,
+                            family=lambda r, kk: [c for c in no_active(gc.family_f3(r, 2 * kk, nmin=5, nmax=9))
+                                                  if not any(c['kind'][s - 1] == 'final' and c['parent'][s - 1] == gc.root(c)
+                                                             for s in range(1, c['n'] + 1))][:kk]))
+
+
 def cfg_C17(tier, rng):
-    return [cfg_C17r(tier, rng)]
+    return [cfg_C17r(tier, rng), cfg_C17c(tier, rng)]
 
 
 CONFIGS = {'C17': cfg_C17, 'C07': cfg_C07, 'C18': cfg_C18, 'C08': cfg_C08, 'C09': cfg_C09, 'C10': cfg_C10, 'C01': cfg_C01, 'C02': cfg_C02, 'C03': cfg_C03, 'C04': cfg_C04, 'C05': cfg_C05,
